@@ -596,6 +596,649 @@ fn part1b(ctx: &Ctx, stats: &Stats, depth: usize) -> u64 {
     total
 }
 
+// ---------------------------------------------------------------- part 1c
+// Steps that are refused HALF WAY because the buffer is full. The builder sits
+// atop a fixed-capacity octets builder (octseq::Array<8/16/40/80> pre-filled so
+// that exactly `room` octets are left, and a run-time capacity builder of the
+// harness for every capacity). Operations that consist of several parts
+// (append_name / append_origin of a name of several labels, given flat or as a
+// chain; append_chars / append_symbols; append_label; the small-label
+// shorthands) are run with and without a label under construction for EVERY
+// amount of room from 0 to the amount at which the whole sequence fits, and the
+// builder is used further afterwards.
+//
+// Oracle: an abstract content model (closed labels, label under construction)
+// written here. A step is made of parts (end the open label; one whole label;
+// one octet; one separator). It must be accepted exactly when every part fits
+// the 63/254 limits and the room, and then the builder holds all parts. When it
+// is refused the builder must hold some PREFIX of the parts - the documentation
+// of NameBuilder promises no more than that for a full buffer -, i.e. whole
+// labels only, never a label whose length octet covers other labels, and is
+// used further from that state: finish / into_name / append_origin on a copy of
+// every state reached must give an error or exactly the modelled name, which an
+// independent validator accepts.
+
+/// Fixed-capacity octets builder of the harness; all-or-nothing appends like
+/// the fixed-size builders of octseq, capacity chosen at run time.
+#[derive(Clone)]
+struct CapVec {
+    v: Vec<u8>,
+    cap: usize,
+}
+impl octseq::builder::OctetsBuilder for CapVec {
+    type AppendError = octseq::builder::ShortBuf;
+    fn append_slice(&mut self, slice: &[u8]) -> Result<(), Self::AppendError> {
+        if self.v.len() + slice.len() > self.cap {
+            return Err(octseq::builder::ShortBuf);
+        }
+        self.v.extend_from_slice(slice);
+        Ok(())
+    }
+}
+impl AsRef<[u8]> for CapVec {
+    fn as_ref(&self) -> &[u8] {
+        &self.v
+    }
+}
+impl AsMut<[u8]> for CapVec {
+    fn as_mut(&mut self) -> &mut [u8] {
+        &mut self.v
+    }
+}
+impl octseq::builder::FreezeBuilder for CapVec {
+    type Octets = Vec<u8>;
+    fn freeze(self) -> Vec<u8> {
+        self.v
+    }
+}
+
+#[derive(Clone, Debug, PartialEq)]
+struct CState {
+    labels: Vec<Vec<u8>>,
+    open: Option<Vec<u8>>,
+}
+impl CState {
+    fn len(&self) -> usize {
+        self.labels.iter().map(|l| l.len() + 1).sum::<usize>() + self.open.as_ref().map(|o| o.len() + 1).unwrap_or(0)
+    }
+    fn ended(&self) -> CState {
+        let mut s = self.clone();
+        if let Some(o) = s.open.take() {
+            s.labels.push(o);
+        }
+        s
+    }
+    /// Wire octets of the relative name this state finishes to.
+    fn wire(&self) -> Vec<u8> {
+        let mut v = Vec::with_capacity(self.len());
+        for l in self.labels.iter().chain(self.open.iter()) {
+            v.push(l.len() as u8);
+            v.extend_from_slice(l);
+        }
+        v
+    }
+}
+
+#[derive(Clone, Debug, PartialEq)]
+enum Part {
+    End,
+    Label(Vec<u8>),
+    Octet(u8),
+    Slice(Vec<u8>),
+    Dot,
+}
+
+/// One part on the model under the name limits and `cap` octets of buffer.
+fn part_apply(s: &CState, p: &Part, cap: usize) -> Result<CState, ()> {
+    let lim = cap.min(254);
+    let mut n = s.clone();
+    match p {
+        Part::End => return Ok(s.ended()),
+        Part::Dot => {
+            if s.open.is_none() {
+                return Err(());
+            }
+            return Ok(s.ended());
+        }
+        Part::Label(l) => {
+            if s.open.is_some() || l.is_empty() || l.len() > 63 || s.len() + 1 + l.len() > lim {
+                return Err(());
+            }
+            n.labels.push(l.clone());
+        }
+        Part::Octet(b) => match &mut n.open {
+            Some(o) => {
+                if o.len() + 1 > 63 || s.len() + 1 > lim {
+                    return Err(());
+                }
+                o.push(*b);
+            }
+            None => {
+                if s.len() + 2 > lim {
+                    return Err(());
+                }
+                n.open = Some(vec![*b]);
+            }
+        },
+        Part::Slice(x) => match &mut n.open {
+            Some(o) => {
+                if o.len() + x.len() > 63 || s.len() + x.len() > lim {
+                    return Err(());
+                }
+                o.extend_from_slice(x);
+            }
+            None => {
+                if x.len() > 63 || s.len() + 1 + x.len() > lim {
+                    return Err(());
+                }
+                n.open = Some(x.clone());
+            }
+        },
+    }
+    Ok(n)
+}
+
+#[derive(Clone, Debug, PartialEq)]
+enum BOp {
+    Push,
+    AppendSlice(usize),
+    EndLabel,
+    AppendLabel(usize),
+    /// label lengths; handed in flat or as a chain (first label + rest)
+    AppendName(Vec<usize>, bool),
+    AppendChars(&'static str),
+    AppendSymbols(&'static str),
+    DecLabel(u8),
+    HexLabel(u8),
+}
+#[derive(Clone, Debug, PartialEq)]
+enum BTerm {
+    Finish,
+    IntoName,
+    /// label lengths before the root; flat or as a chain (relative first label + absolute rest)
+    AppendOrigin(Vec<usize>, bool),
+}
+
+fn bop_kind(op: &BOp) -> &'static str {
+    match op {
+        BOp::Push => "push",
+        BOp::AppendSlice(_) => "append_slice",
+        BOp::EndLabel => "end_label",
+        BOp::AppendLabel(_) => "append_label",
+        BOp::AppendName(_, false) => "append_name",
+        BOp::AppendName(_, true) => "append_name(chain)",
+        BOp::AppendChars(_) => "append_chars",
+        BOp::AppendSymbols(_) => "append_symbols",
+        BOp::DecLabel(_) => "append_dec_u8_label",
+        BOp::HexLabel(_) => "append_hex_digit_label",
+    }
+}
+
+/// Labels of an operand: label i is filled with `base + i`, so that a label that swallowed its
+/// neighbours cannot look like the expected one.
+fn operand_labels(shape: &[usize], base: u8) -> Vec<Vec<u8>> {
+    shape.iter().enumerate().map(|(i, l)| vec![base + i as u8; *l]).collect()
+}
+
+/// The parts an operation consists of. More than one reading where documentation and
+/// established behaviour differ (append_chars / append_symbols with a label under construction:
+/// documented to end it first, established to continue it).
+fn bop_parts(op: &BOp, open: bool) -> Vec<Vec<Part>> {
+    match op {
+        BOp::Push => vec![vec![Part::Octet(b'p')]],
+        BOp::AppendSlice(n) => vec![vec![Part::Slice(vec![b's'; *n])]],
+        BOp::EndLabel => vec![vec![Part::End]],
+        BOp::AppendLabel(n) => vec![vec![Part::End, Part::Label(vec![b'l'; *n])]],
+        BOp::AppendName(shape, _) => {
+            let mut v = vec![Part::End];
+            v.extend(operand_labels(shape, b'b').into_iter().map(Part::Label));
+            vec![v]
+        }
+        BOp::AppendChars(t) | BOp::AppendSymbols(t) => {
+            let syms: Vec<Part> = t.bytes().map(|c| if c == b'.' { Part::Dot } else { Part::Octet(c) }).collect();
+            if open {
+                let mut ended = vec![Part::End];
+                ended.extend(syms.iter().cloned());
+                vec![syms, ended]
+            } else {
+                vec![syms]
+            }
+        }
+        BOp::DecLabel(v) => vec![vec![Part::End, Part::Label(v.to_string().into_bytes())]],
+        BOp::HexLabel(n) => vec![vec![Part::End, Part::Label(vec![b"0123456789"[*n as usize]])]],
+    }
+}
+
+/// Octets the operation adds when nothing is in the way.
+fn bop_growth(op: &BOp) -> usize {
+    bop_parts(op, false)[0]
+        .iter()
+        .map(|p| match p {
+            Part::End | Part::Dot => 0,
+            Part::Label(l) => l.len() + 1,
+            Part::Octet(_) => 2,
+            Part::Slice(x) => x.len() + 1,
+        })
+        .sum()
+}
+
+trait BoundedBuf: octseq::builder::OctetsBuilder + octseq::builder::FreezeBuilder + AsRef<[u8]> + AsMut<[u8]> + Clone {}
+impl BoundedBuf for CapVec {}
+impl<const N: usize> BoundedBuf for octseq::Array<N> {}
+
+fn bop_apply<B: BoundedBuf>(b: &mut NameBuilder<B>, op: &BOp) -> Result<bool, String>
+where
+    B::Octets: AsRef<[u8]>,
+{
+    use domain::base::scan::Symbol;
+    guard(|| match op {
+        BOp::Push => b.push(b'p').is_ok(),
+        BOp::AppendSlice(n) => b.append_slice(&vec![b's'; *n]).is_ok(),
+        BOp::EndLabel => {
+            b.end_label();
+            true
+        }
+        BOp::AppendLabel(n) => b.append_label(&vec![b'l'; *n]).is_ok(),
+        BOp::AppendName(shape, chain) => {
+            let labels = operand_labels(shape, b'b');
+            if *chain {
+                let left = RelativeName::from_octets(labels_wire(&labels[..1], false)).expect("harness: operand");
+                let right = RelativeName::from_octets(labels_wire(&labels[1..], false)).expect("harness: operand");
+                let c = left.chain(right).expect("harness: chain operand");
+                b.append_name(&c).is_ok()
+            } else {
+                let r = RelativeName::from_octets(labels_wire(&labels, false)).expect("harness: operand");
+                b.append_name(&r).is_ok()
+            }
+        }
+        BOp::AppendChars(t) => b.append_chars(t.chars()).is_ok(),
+        BOp::AppendSymbols(t) => b.append_symbols(t.chars().map(Symbol::Char)).is_ok(),
+        BOp::DecLabel(v) => b.append_dec_u8_label(*v).is_ok(),
+        BOp::HexLabel(n) => b.append_hex_digit_label(*n).is_ok(),
+    })
+}
+
+struct BEnv<'a> {
+    ctx: &'a Ctx,
+    stats: &'a Stats,
+    buffer: &'static str,
+    cap: usize,
+    prefill: usize,
+    terms: &'a [BTerm],
+    conts: &'a [BOp],
+    evals: u64,
+    counts: BTreeMap<String, u64>,
+}
+impl BEnv<'_> {
+    fn case(&self, path: &[&BOp], extra: Value) -> Value {
+        json!({"buffer": self.buffer, "capacity": self.cap, "prefilled_octets": self.prefill, "room": self.cap - self.prefill,
+               "history": path.iter().map(|o| format!("{:?}", o)).collect::<Vec<_>>(), "observed": extra})
+    }
+    fn bump(&mut self, k: &str) {
+        match self.counts.get_mut(k) {
+            Some(c) => *c += 1,
+            None => {
+                self.counts.insert(k.to_string(), 1);
+            }
+        }
+    }
+}
+
+/// One step on the real builder and the model. None: a violation was reported (or the
+/// history cannot be followed any further).
+fn bstep<B: BoundedBuf>(env: &mut BEnv, b: &NameBuilder<B>, s: &CState, op: &BOp, path: &[&BOp]) -> Option<(NameBuilder<B>, CState)>
+where
+    B::Octets: AsRef<[u8]>,
+{
+    env.evals += 1;
+    let sig = format!("C03|builder-bounded|{}", bop_kind(op));
+    let open_before = s.open.is_some();
+    // model: every reading of the operation, all its prefix states, its full result
+    let mut fulls: Vec<CState> = Vec::new();
+    let mut prefixes: Vec<CState> = Vec::new();
+    let mut fits_unbounded = false;
+    let readings = bop_parts(op, open_before);
+    for parts in &readings {
+        let mut cur = s.clone();
+        let mut ok = true;
+        for p in parts {
+            if !prefixes.contains(&cur) {
+                prefixes.push(cur.clone());
+            }
+            match part_apply(&cur, p, env.cap) {
+                Ok(n) => cur = n,
+                Err(()) => {
+                    ok = false;
+                    break;
+                }
+            }
+        }
+        if ok {
+            fulls.push(cur);
+        } else {
+            let mut cur = s.clone();
+            fits_unbounded |= parts.iter().all(|p| match part_apply(&cur, p, usize::MAX) {
+                Ok(n) => {
+                    cur = n;
+                    true
+                }
+                Err(()) => false,
+            });
+        }
+    }
+    let mut n = b.clone();
+    let res = match bop_apply(&mut n, op) {
+        Ok(r) => r,
+        Err(p) => {
+            env.ctx.violation(&format!("{sig}|panic|{}", panic_class(&p)), &p, env.case(path, json!(null)));
+            return None;
+        }
+    };
+    let (obs_len, obs_open) = (n.len(), n.in_label());
+    let fin = guard(|| n.clone().finish().as_slice().to_vec());
+    let fin = match fin {
+        Ok(o) => o,
+        Err(p) => {
+            env.ctx.violation(&format!("{sig}|then-finish|panic|{}", panic_class(&p)), &p, env.case(path, json!(null)));
+            return None;
+        }
+    };
+    let observed = || json!({"result": if res { "Ok" } else { "Err" }, "len": obs_len, "in_label": obs_open, "finish": hex(&fin)});
+    let matches = |c: &CState| c.len() == obs_len && c.open.is_some() == obs_open && c.ended().wire() == fin;
+    let valid = validate_name(&fin, false).is_ok() && fin.len() <= env.cap;
+    if res {
+        if let Some(next) = fulls.iter().find(|c| matches(c)) {
+            env.bump("bounded.step.accepted");
+            return Some((n, next.clone()));
+        }
+        let class = if !valid {
+            "accepted-and-holds-invalid-name"
+        } else if !fulls.is_empty() {
+            "accepted-but-content-differs-from-model"
+        } else if fits_unbounded {
+            "accepted-beyond-buffer"
+        } else {
+            "accepted-beyond-name-limits"
+        };
+        env.ctx.violation(
+            &format!("{sig}|{class}|open-before={open_before}"),
+            &format!("{:?} returned Ok with {} octets of room; builder: len {} in_label {} finish {}; model expects {}", op, env.cap - s.len().min(env.cap), obs_len, obs_open, hex(&fin), fulls.first().map(|c| hex(&c.ended().wire())).unwrap_or("a refusal".into())),
+            env.case(path, observed()),
+        );
+        return None;
+    }
+    // refused
+    if fulls.len() == readings.len() {
+        env.ctx.violation(
+            &format!("{sig}|refused-although-it-fits|open-before={open_before}"),
+            &format!("{:?} refused although the result ({} octets) obeys 63/254 and fits the buffer of {}", op, fulls[0].len(), env.cap),
+            env.case(path, observed()),
+        );
+        return None;
+    }
+    prefixes.extend(fulls.iter().cloned()); // (only for operations with two readings)
+    let Some(next) = prefixes.iter().find(|c| matches(c)) else {
+        let class = if !valid { "refused-step-leaves-invalid-name" } else { "refused-step-leaves-content-that-is-no-prefix-of-whole-parts" };
+        env.ctx.violation(
+            &format!("{sig}|{class}|open-before={open_before}"),
+            &format!("{:?} refused (capacity {}, {} octets held before); afterwards the builder has len {} in_label {} and finishes to {} - not the previous content followed by a prefix of the parts of the operation (previous content {})", op, env.cap, s.len(), obs_len, obs_open, hex(&fin), hex(&s.ended().wire())),
+            env.case(path, observed()),
+        );
+        return None;
+    };
+    env.bump("bounded.step.refused");
+    if fits_unbounded {
+        env.bump(&format!("bounded.refused-by-buffer.{}.{}", bop_kind(op), if next == s { "nothing-kept" } else if *next == s.ended() { "open-label-ended" } else { "whole-parts-kept" }));
+        env.stats.distinct(fnv(&fin) ^ (env.cap as u64).wrapping_mul(0x9E3779B97F4A7C15));
+    }
+    Some((n, next.clone()))
+}
+
+/// finish / into_name / append_origin on copies of the builder in model state `s`.
+fn bterminals<B: BoundedBuf>(env: &mut BEnv, b: &NameBuilder<B>, s: &CState, path: &[&BOp])
+where
+    B::Octets: AsRef<[u8]>,
+{
+    let e = s.ended();
+    let ewire = e.wire();
+    for t in env.terms {
+        env.evals += 1;
+        let (kind, origin): (&str, Vec<Vec<u8>>) = match t {
+            BTerm::Finish => ("finish", vec![]),
+            BTerm::IntoName => ("into_name", vec![]),
+            BTerm::AppendOrigin(shape, false) => ("append_origin", operand_labels(shape, b'o')),
+            BTerm::AppendOrigin(shape, true) => ("append_origin(chain)", operand_labels(shape, b'o')),
+        };
+        let sig = format!("C03|builder-bounded|{kind}");
+        let r: Result<Option<Vec<u8>>, String> = guard(|| match t {
+            BTerm::Finish => Some(b.clone().finish().as_slice().to_vec()),
+            BTerm::IntoName => b.clone().into_name().ok().map(|n| n.as_slice().to_vec()),
+            BTerm::AppendOrigin(_, chain) => {
+                let w = labels_wire(&origin, true);
+                if *chain {
+                    let cut = origin[0].len() + 1;
+                    let left = RelativeName::from_octets(w[..cut].to_vec()).expect("harness: operand");
+                    let right = Name::from_octets(w[cut..].to_vec()).expect("harness: operand");
+                    let c = left.chain(right).expect("harness: chain operand");
+                    b.clone().append_origin(&c).ok().map(|n| n.as_slice().to_vec())
+                } else {
+                    let o = Name::from_octets(w).expect("harness: operand");
+                    b.clone().append_origin(&o).ok().map(|n| n.as_slice().to_vec())
+                }
+            }
+        });
+        let absolute = !matches!(t, BTerm::Finish);
+        let mut want = ewire.clone();
+        if absolute {
+            want.extend_from_slice(&labels_wire(&origin, true));
+        }
+        let fits = want.len() <= env.cap && want.len() <= if absolute { 255 } else { 254 };
+        let mut tpath: Vec<String> = path.iter().map(|o| format!("{:?}", o)).collect();
+        let mut case = |env: &BEnv, got: Value| {
+            tpath.push(format!("{:?}", t));
+            json!({"buffer": env.buffer, "capacity": env.cap, "prefilled_octets": env.prefill, "room": env.cap - env.prefill, "history": tpath, "observed": got})
+        };
+        match r {
+            Err(p) => {
+                env.ctx.violation(&format!("{sig}|panic|{}", panic_class(&p)), &p, case(env, json!(null)));
+            }
+            Ok(None) => {
+                if fits {
+                    env.ctx.violation(&format!("{sig}|refused-although-it-fits"), &format!("{:?} failed although the name ({} octets) fits the buffer of {}", t, want.len(), env.cap), case(env, json!("Err")));
+                }
+            }
+            Ok(Some(o)) => {
+                let class = if validate_name(&o, absolute).is_err() {
+                    Some("returned-invalid-name")
+                } else if !fits {
+                    Some("returned-name-beyond-buffer-or-limits")
+                } else if o != want {
+                    Some("returned-name-differs-from-model")
+                } else {
+                    None
+                };
+                if let Some(class) = class {
+                    env.ctx.violation(
+                        &format!("{sig}|{class}|open={}", s.open.is_some()),
+                        &format!("{:?} returned {} ({}); the accepted operations built {}", t, hex(&o), validate_name(&o, absolute).err().unwrap_or("valid".into()), hex(&want)),
+                        case(env, json!(hex(&o))),
+                    );
+                }
+            }
+        }
+    }
+}
+
+fn bconts<'a, B: BoundedBuf>(env: &mut BEnv<'a>, b: &NameBuilder<B>, s: &CState, path: &mut Vec<&'a BOp>, depth: usize)
+where
+    B::Octets: AsRef<[u8]>,
+{
+    if depth == 0 {
+        return;
+    }
+    let conts: &'a [BOp] = env.conts;
+    for op in conts {
+        path.push(op);
+        if let Some((n, ns)) = bstep(env, b, s, op, path) {
+            bterminals(env, &n, &ns, path);
+            bconts(env, &n, &ns, path, depth - 1);
+        }
+        path.pop();
+    }
+}
+
+/// Octets of slack beyond "the setup and the operation fit": room for the continuations to fit too.
+const B_SLACK: usize = 10;
+
+/// Every history  [closed label] [open head] operation continuation*  on one builder.
+fn bexplore<'a, B: BoundedBuf>(env: &mut BEnv<'a>, b0: &NameBuilder<B>, s0: &CState, closed: &'a [Option<BOp>], heads: &'a [Option<BOp>], multi: &'a [BOp], depth: usize)
+where
+    B::Octets: AsRef<[u8]>,
+{
+    let mut path: Vec<&'a BOp> = Vec::new();
+    bterminals(env, b0, s0, &path);
+    for c in closed {
+        let (b1, s1) = match c {
+            None => (b0.clone(), s0.clone()),
+            Some(op) => {
+                path.push(op);
+                let r = bstep(env, b0, s0, op, &path);
+                path.pop();
+                match r {
+                    Some(x) => x,
+                    None => continue,
+                }
+            }
+        };
+        if let Some(op) = c {
+            path.push(op);
+        }
+        for h in heads {
+            let (b2, s2) = match h {
+                None => (b1.clone(), s1.clone()),
+                Some(op) => {
+                    path.push(op);
+                    let r = bstep(env, &b1, &s1, op, &path);
+                    path.pop();
+                    match r {
+                        Some(x) => x,
+                        None => continue,
+                    }
+                }
+            };
+            if let Some(op) = h {
+                path.push(op);
+            }
+            for m in multi {
+                if env.cap > s2.len() + bop_growth(m) + B_SLACK {
+                    continue; // everything fits with room to spare: the unbounded parts cover it
+                }
+                path.push(m);
+                if let Some((b3, s3)) = bstep(env, &b2, &s2, m, &path) {
+                    bterminals(env, &b3, &s3, &path);
+                    bconts(env, &b3, &s3, &mut path, depth);
+                }
+                path.pop();
+            }
+            if h.is_some() {
+                path.pop();
+            }
+        }
+        if c.is_some() {
+            path.pop();
+        }
+    }
+}
+
+fn bexplore_array<'a, const N: usize>(env: &mut BEnv<'a>, room: usize, closed: &'a [Option<BOp>], heads: &'a [Option<BOp>], multi: &'a [BOp], depth: usize) {
+    let mut b = NameBuilder::<octseq::Array<N>>::new();
+    let mut s = CState { labels: vec![], open: None };
+    for l in lens_for_total(N - room) {
+        b.append_label(&vec![b'f'; l]).expect("harness: prefill");
+        s.labels.push(vec![b'f'; l]);
+    }
+    assert_eq!(b.len(), N - room);
+    bexplore(env, &b, &s, closed, heads, multi, depth);
+}
+
+fn part1c(ctx: &Ctx, stats: &Stats) -> Value {
+    let quick = ctx.quick();
+    let closed: Vec<Option<BOp>> = vec![None, Some(BOp::AppendLabel(1)), Some(BOp::AppendLabel(3))];
+    let mut heads: Vec<Option<BOp>> = vec![None, Some(BOp::Push), Some(BOp::AppendSlice(2))];
+    let mut shapes: Vec<Vec<usize>> = vec![vec![1], vec![63], vec![1, 1], vec![1, 2], vec![2, 1], vec![2, 63], vec![63, 20], vec![1, 1, 1], vec![3, 2, 1]];
+    let mut chained: Vec<Vec<usize>> = vec![vec![1, 1], vec![1, 2], vec![63, 20], vec![1, 1, 1]];
+    let mut texts: Vec<&'static str> = vec!["a.b", "ab.c", "a.bc.d", "ab."];
+    let mut conts: Vec<BOp> = vec![BOp::Push, BOp::EndLabel, BOp::AppendSlice(2), BOp::AppendLabel(2), BOp::AppendName(vec![1, 1], false)];
+    let mut terms: Vec<BTerm> = vec![BTerm::Finish, BTerm::IntoName, BTerm::AppendOrigin(vec![], false), BTerm::AppendOrigin(vec![1], false), BTerm::AppendOrigin(vec![1, 2], false), BTerm::AppendOrigin(vec![1, 2], true)];
+    if !quick {
+        heads.push(Some(BOp::AppendSlice(8)));
+        shapes.extend([vec![1, 63], vec![2, 13], vec![5, 9, 20], vec![30, 30, 30], vec![63, 63, 10], vec![10, 63, 63], vec![1; 12]]);
+        chained.extend([vec![2, 63], vec![3, 2, 1], vec![63, 63, 10], vec![10, 63, 63]]);
+        texts.extend(["abc", "a.b.c.d", "a.b."]);
+        conts.push(BOp::AppendChars("a.b"));
+        terms.extend([BTerm::AppendOrigin(vec![2, 63], false), BTerm::AppendOrigin(vec![63, 20], true), BTerm::AppendOrigin(vec![1, 1, 1], false)]);
+    }
+    let depth = if quick { 2 } else { 3 };
+    let mut multi: Vec<BOp> = vec![BOp::Push, BOp::EndLabel, BOp::DecLabel(7), BOp::DecLabel(255), BOp::HexLabel(7)];
+    multi.extend([1usize, 2, 63].iter().map(|n| BOp::AppendSlice(*n)));
+    multi.extend([1usize, 2, 63].iter().map(|n| BOp::AppendLabel(*n)));
+    multi.extend(shapes.iter().map(|s| BOp::AppendName(s.clone(), false)));
+    multi.extend(chained.iter().map(|s| BOp::AppendName(s.clone(), true)));
+    multi.extend(texts.iter().map(|t| BOp::AppendChars(*t)));
+    multi.extend(texts.iter().take(if quick { 2 } else { texts.len() }).map(|t| BOp::AppendSymbols(*t)));
+    let max_room = 4 + 9 + multi.iter().map(bop_growth).max().unwrap() + B_SLACK;
+    // (buffer kind, room): kind 0 = run-time capacity builder, otherwise Array<kind>
+    let mut jobs: Vec<(usize, usize)> = (0..=max_room).map(|r| (0usize, r)).collect();
+    for n in [8usize, 16, 40, 80] {
+        jobs.extend((0..=n).filter(|r| n - r != 1).map(|r| (n, r)));
+    }
+    let evals_before = stats.evals();
+    jobs.par_iter().for_each(|(kind, room)| {
+        let mut env = BEnv {
+            ctx,
+            stats,
+            buffer: match kind {
+                0 => "fixed-capacity builder of the harness (from_builder)",
+                8 => "Array<8>",
+                16 => "Array<16>",
+                40 => "Array<40>",
+                _ => "Array<80>",
+            },
+            cap: if *kind == 0 { *room } else { *kind },
+            prefill: if *kind == 0 { 0 } else { *kind - *room },
+            terms: &terms,
+            conts: &conts,
+            evals: 0,
+            counts: BTreeMap::new(),
+        };
+        match kind {
+            0 => {
+                let b = NameBuilder::from_builder(CapVec { v: Vec::new(), cap: *room }).ok().expect("harness: empty builder");
+                bexplore(&mut env, &b, &CState { labels: vec![], open: None }, &closed, &heads, &multi, depth);
+            }
+            8 => bexplore_array::<8>(&mut env, *room, &closed, &heads, &multi, depth),
+            16 => bexplore_array::<16>(&mut env, *room, &closed, &heads, &multi, depth),
+            40 => bexplore_array::<40>(&mut env, *room, &closed, &heads, &multi, depth),
+            _ => bexplore_array::<80>(&mut env, *room, &closed, &heads, &multi, depth),
+        }
+        stats.evaluations.fetch_add(env.evals, std::sync::atomic::Ordering::Relaxed);
+        stats.merge_counts(&env.counts);
+    });
+    let runs = stats.evals() - evals_before;
+    stats.count_n("bounded.operations_run", runs);
+    json!({
+        "builder_half_way_refusals": "every history [closed label] [label under construction] operation continuation{0..depth} with finish / into_name / append_origin on a copy of every state, for every amount of room",
+        "buffers": "Array<8>, Array<16>, Array<40>, Array<80> pre-filled to leave every amount of room; a run-time fixed-capacity builder handed to from_builder at every capacity",
+        "room": format!("0..={max_room} octets (an operation is skipped once it fits with more than {B_SLACK} octets to spare)"),
+        "operations": multi.iter().map(|o| format!("{:?}", o)).collect::<Vec<_>>(),
+        "continuations": conts.iter().map(|o| format!("{:?}", o)).collect::<Vec<_>>(),
+        "continuation_depth": depth,
+        "terminals": terms.iter().map(|o| format!("{:?}", o)).collect::<Vec<_>>(),
+        "builder_runs": jobs.len(),
+        "operations_run": runs,
+    })
+}
+
 fn total_class(t: usize) -> String {
     if t <= 254 {
         "<=254".into()
@@ -2049,6 +2692,7 @@ fn main() {
         } else {
             // builder histories and chains are cheap: re-run those parts whole
             part1(&ctx, &stats);
+            part1c(&ctx, &stats);
             check_chain(&ctx, &stats);
         }
         ctx.finish(json!({"states": 1, "transitions": 1, "traces_validated_against_impl": 1, "samples": [case], "evaluations": 1, "distinct_nontrivial": 0, "rule": "replay"}), &[]);
@@ -2060,6 +2704,9 @@ fn main() {
     // Part 1b: other buffers
     let p1b = part1b(&ctx, &stats, if ctx.quick() { 4 } else { 5 });
     samples.push(json!({"builder_buffers": "Array<40> and BytesMut against Vec, every sequence over 14 operations", "sequences": p1b}));
+
+    // Part 1c: steps refused half way by a full buffer, continued use
+    samples.push(part1c(&ctx, &stats));
 
     // Part 2a: presentation strings
     let alphabet: Vec<char> = vec!['a', '.', '\\', '0', '2', '5', '9', ' ', '"', '[', 'é'];
@@ -2213,7 +2860,7 @@ fn main() {
         "traces_validated_against_impl": transitions,
         "evaluations": evals + transitions,
         "distinct_nontrivial": stats.distinct_count(),
-        "rule": "part 1: BFS to FIXPOINT over abstract builder states (len, open-label length); every operation of the menu executed on the real NameBuilder in every reachable state, twice with different fill octets. part 2: every string over the text alphabet to max_len, boundary families, every wire string from the length menu to depth, raw octet strings, every index pair for slicing. part 2e (octet axis): every octet value at every kind of place of a label, every boundary-menu pair, as every name type, through every text writer, each distinct text through every text reader; expected octets from the RFC 1035 5.1 escape rules in the harness and the round-trip identity. distinct_nontrivial = distinct octet strings that some constructor accepted as a name (hash set)",
+        "rule": "part 1: BFS to FIXPOINT over abstract builder states (len, open-label length); every operation of the menu executed on the real NameBuilder in every reachable state, twice with different fill octets. part 1c: the builder atop fixed-capacity buffers (four octseq::Array sizes pre-filled to every amount of room, a run-time capacity builder at every capacity): every history [closed label] [label under construction] operation continuation* where operation ranges over the single- and multi-part operations (append_name of 1-3 labels flat and as a chain, append_chars / append_symbols, append_label, append_slice, push, shorthands), finish / into_name / append_origin on a copy of every state; oracle = content model of whole parts written in the harness: accepted exactly when all parts fit 63/254 and the room, a refused step leaves the previous content plus a prefix of whole parts, every name obtained afterwards is valid and equals the model. part 2: every string over the text alphabet to max_len, boundary families, every wire string from the length menu to depth, raw octet strings, every index pair for slicing. part 2e (octet axis): every octet value at every kind of place of a label, every boundary-menu pair, as every name type, through every text writer, each distinct text through every text reader; expected octets from the RFC 1035 5.1 escape rules in the harness and the round-trip identity. distinct_nontrivial = distinct octet strings that some constructor accepted as a name (hash set)",
         "exhaustive": true,
         "samples": samples,
         "counters": stats.counters_json(),
